@@ -2,7 +2,15 @@
 """Regenerates MANIFEST.json from tools/manifest_src.py (single place where the claims are written)."""
 import json, sys
 sys.path.insert(0, '/verif/tools')
-from manifest_src import CHECKS, NOT_APPLICABLE, HOOK_COMMITS
+sys.path.insert(0, '/verif/checks')
+import importlib, glob, os
+from manifest_src import NOT_APPLICABLE, HOOK_COMMITS
+CHECKS = {}
+for f in sorted(glob.glob('/verif/checks/C*.py')):
+    pid = os.path.basename(f)[:-3]
+    m = importlib.import_module(pid)
+    if getattr(m, 'MANIFEST', None):
+        CHECKS[pid] = m.MANIFEST
 props = [json.loads(l)['id'] for l in open('/verif/properties.jsonl')]
 checks = []
 for pid in props:
